@@ -241,7 +241,7 @@ Aton(v) ==
            body == IF neg THEN SubSeq(s, 2, Len(s)) ELSE s
            dot == {i \in 1..Len(body) : body[i] = "."}
        IN IF AllDigits(body) THEN
-             (IF Len(body) > 4 THEN Unspec ELSE Ok(IntV(IF neg THEN -NatVal(body) ELSE NatVal(body))))
+             (IF Len(body) > 9 THEN Unspec ELSE Ok(IntV(IF neg THEN -NatVal(body) ELSE NatVal(body))))
           ELSE IF Cardinality(dot) = 1 THEN
              LET d == CHOOSE i \in dot : TRUE
                  ip == SubSeq(body, 1, d - 1)  fp == SubSeq(body, d + 1, Len(body)) IN
